@@ -94,6 +94,20 @@ class Cell(Numbered_MCNP_Object):
         self._number = self._tree["cell_num"]
         mat_tree = self._tree["material"]
         self._old_mat_number = mat_tree["mat_number"]
+        if input:
+            if self._number.value is None or self._number.value <= 0:
+                raise MalformedInputError(
+                    input,
+                    f"{self._number.value} could not be parsed as a valid cell number.",
+                )
+            if (
+                self._old_mat_number.value is not None
+                and self._old_mat_number.value < 0
+            ):
+                raise MalformedInputError(
+                    input,
+                    f"{self._old_mat_number.value} could not be parsed as a valid material number.",
+                )
         self._density_node = mat_tree["density"]
         self._density_node.is_negatable_float = True
         if self.old_mat_number != 0:
